@@ -4,7 +4,7 @@ spec: Codec (abstract data values; Same = identity of kind, number, runes and st
       form the printer emits per character class against the reader's escape table), NumLit (the
       literal grammar -- decimal with underscores, 0x/0o/0b, ULL, fraction, exponent, sign, Inf, NaN --
       with the exact value of every spelling as a digit sequence), Decimal
-TLC:  MCNumLit -- every spelling of <= 4 (thorough: 5) symbols over the literal alphabet: notations
+TLC:  MCNumLit -- every spelling of <= 3 (thorough: 4, and 5 over a 14-symbol core) symbols over the literal alphabet: notations
       disjoint, separators / leading zeros / sign / base / point and exponent laws, range edges;
       MCCodec (thorough) -- print-then-read as designed in the code is the identity exactly where no
       named deviation has a trigger
